@@ -24,6 +24,9 @@ from .remote_exception import RemoteException
 logger = logging.getLogger(__name__)
 
 
+_LOGGER_QUEUE_WARMUP = 'mpservice-logger-queue-warmup'
+
+
 class SpawnProcess(multiprocessing.context.SpawnProcess):
     """
     A subclass of the standard ``multiprocessing.context.SpawnProcess``,
@@ -167,12 +170,27 @@ class SpawnProcess(multiprocessing.context.SpawnProcess):
             daemon=getattr(self, 'daemon', None),
         )
         self._logger_thread_.start()
+        # The first `put` on a multiprocessing queue starts the queue's feeder thread,
+        # and threads can not be started while the interpreter is shutting down.
+        # The end marker for the logger thread may be due just then (a process that is
+        # still running when the main thread ends), hence make the first `put` now.
+        self._logger_queue_.put(_LOGGER_QUEUE_WARMUP)
 
         self._result_collector_thread_ = Thread(
             target=self._collect_result,
             name=f'{self.name}-ResultCollectorThread',
         )
         self._result_collector_thread_.start()
+
+        # Ends the logger thread once the process has ended. This thread is started
+        # here, not when the result arrives: by then the interpreter may be
+        # shutting down, when new threads can no longer be created.
+        Thread(
+            target=self._close_logger,
+            args=(self.sentinel,),
+            name=f'{self.name}-LoggerCloserThread',
+            daemon=self._logger_thread_.daemon,
+        ).start()
 
         self._finalizer_ = multiprocessing.util.Finalize(
             self,
@@ -186,6 +204,8 @@ class SpawnProcess(multiprocessing.context.SpawnProcess):
             record = q.get()
             if record is None:
                 break
+            if record == _LOGGER_QUEUE_WARMUP:
+                continue
             logger = logging.getLogger(record.name)
             if record.levelno >= logger.getEffectiveLevel():
                 logger.handle(record)
@@ -231,18 +251,11 @@ class SpawnProcess(multiprocessing.context.SpawnProcess):
         else:
             self._future_.set_result(result)
 
+    def _close_logger(self, sentinel):
         # The child flushes its log queue before it exits; ending the logger
         # thread any earlier would lose records (and a child with many unflushed
-        # records could never exit). Do it in the background, so that `join` is
+        # records could never exit). This runs in a thread of its own, so that `join` is
         # not held up by the handling of the child's last records.
-        Thread(
-            target=self._close_logger,
-            args=(self.sentinel,),
-            name=f'{self.name}-LoggerCloserThread',
-            daemon=self._logger_thread_.daemon,
-        ).start()
-
-    def _close_logger(self, sentinel):
         # Wait on the sentinel rather than polling `exitcode`, so as not to reap
         # the child under a concurrent `join`.
         multiprocessing.connection.wait([sentinel])
